@@ -164,6 +164,35 @@ def check_string(res, fam, cls, letters, ec, x, ecname):
         res.classes['escaped-now-safe'] += 1
 
 
+def check_highlights(res, fam, cls, letters, ec, x, ecname):
+    """every range (a, b) of x highlighted: the encoding is the encoding of the three pieces with the two highlight
+    sequences between them (x holds no escape character, so the pieces are encoded independently)"""
+    esc = ec['ESCAPE']
+    n_cases = 0
+    for a in range(0, len(x)):
+        for b in range(a + 1, len(x) + 1):
+            res.evaluations += 1
+            res.transitions += 1
+            n_cases += 1
+            point = {'kind': 'H', 'class': fam, 'ec': ec, 'x': x, 'range': [a, b]}
+            try:
+                want = cls(x[:a]).to_er7(ec) + esc + 'H' + esc + cls(x[a:b]).to_er7(ec) + esc + 'N' + esc + cls(x[b:]).to_er7(ec)
+                got = cls(x, highlights=((a, b),)).to_er7(ec)
+            except Exception as e:
+                res.violation('highlight-raises|%s|%s' % (fam, type(e).__name__), '%s(%r, highlights=((%d, %d),)).to_er7() raises %s: %s' % (cls.__name__, x, a, b, type(e).__name__, e),
+                              point, rank=len(x))
+                continue
+            res.validated += 1
+            if any(ch in x[:b] for ch in ec.values() if ch != '\r'):
+                res.nontrivial += 1
+            if got != want:
+                res.violation('highlight-misplaced|%s|%s' % (fam, role_pattern(x, ec)), '%s(%r, highlights=((%d, %d),)).to_er7() = %r, the pieces encode to %r (%s)'
+                              % (cls.__name__, x, a, b, got, want, ecname), point, rank=len(x))
+            else:
+                res.classes['highlight-in-place'] += 1
+    return n_cases
+
+
 def family_name(v, n, cls):
     return '%s.%s' % (cls.__module__.replace('hl7apy.', ''), cls.__name__)
 
@@ -255,6 +284,21 @@ def run_unit(unit, tier):
         if first == 0:
             check_string(res, fam, cls, letters, ec, '', ecname)
             cnt += 1
+            # long values: 40 times each symbol, and the alphabet cycled to 120 characters (more things to escape in
+            # one value than any counter or buffer sized for ordinary values)
+            for c in sym:
+                check_string(res, fam, cls, letters, ec, c * 40, ecname)
+                cnt += 1
+            check_string(res, fam, cls, letters, ec, (''.join(sym) * 12)[:120], ecname)
+            cnt += 1
+            # highlight ranges over every string <= 4 of {delimiters, two letters} (no escape character)
+            if make(cls, 'a') is not None and hasattr(make(cls, 'a'), 'highlights'):
+                hsym = [c for c in sym if c != ec['ESCAPE'] and c not in 'EFHL'] + ['E']
+                hn = 3 if tier == 'quick' else 4
+                for x in strings(hsym, hn):
+                    if x:
+                        cnt += check_highlights(res, fam, cls, letters, ec, x, ecname)
+                res.expected_size += sum(len(hsym) ** L * L * (L + 1) // 2 for L in range(1, hn + 1))
         for ln in range(0, n):
             for t in itertools.product(sym, repeat=ln):
                 x = sym[first] + ''.join(t)
@@ -262,7 +306,7 @@ def run_unit(unit, tier):
                 cnt += 1
         res.enumerated += cnt
         res.states += cnt
-        res.expected_size += sum(len(sym) ** i for i in range(0, n)) + (1 if first == 0 else 0)
+        res.expected_size += sum(len(sym) ** i for i in range(0, n)) + ((2 + len(sym)) if first == 0 else 0)
         res.dims['A:class=%s' % fam] += cnt
         res.sample({'class': fam, 'ec': ecname, 'x': sym[first] + sym[-6] + 'E', 'out': cls(sym[first] + sym[-6] + 'E').to_er7(ec)
                     if make(cls, sym[first] + sym[-6] + 'E') else None})
@@ -467,6 +511,12 @@ def replay(point, res):
                 fam = family_name(v, n, cls) + ('@2.7+' if letters == LETTERS_27 else '@<2.7')
                 if fam == point['class']:
                     check_string(res, fam, cls, letters, point['ec'], point['x'], 'replay')
+    elif point['kind'] == 'H':
+        for v, n, cls in textual_classes():
+            for letters in (LETTERS_BASE, LETTERS_27):
+                fam = family_name(v, n, cls) + ('@2.7+' if letters == LETTERS_27 else '@<2.7')
+                if fam == point['class']:
+                    check_highlights(res, fam, cls, letters, point['ec'], point['x'], 'replay')
     else:
         # re-run the whole (small) end-to-end unit; keys are per input
         end_to_end(res, point['v'], point['k'])
